@@ -38,6 +38,8 @@ pub struct Avoid {
     pub bom_midfile: bool,
     /// regular expression literal as operand / argument of an instrumented operation (executable programs only)
     pub regex_literal_operand: bool,
+    /// a string literal spelled with a lone surrogate escape (`'\uD800abc'`): the dependency keeps the escape as text
+    pub lone_surrogate_literal: bool,
 }
 
 #[derive(Clone, Debug)]
